@@ -348,8 +348,14 @@ pub trait Language: Debug + Clone + Hash + Eq + Ord {
         }
 
         let mut c = self.clone();
+        // one fresh slot per uncovered slot, shared by all of its occurrences.
+        let mut invented = SlotMap::new();
         for x in c.public_slot_occurrences_mut() {
-            let y = m.get(*x).unwrap_or_else(Slot::fresh);
+            let y = m.get(*x).or_else(|| invented.get(*x)).unwrap_or_else(|| {
+                let y = Slot::fresh();
+                invented.insert(*x, y);
+                y
+            });
 
             // If y collides with a private slot, we have a problem.
             if CHECKS {
